@@ -203,7 +203,7 @@ def run(ctx, model=True):
     if _ENUM is None:
         _ENUM = enumerate_all()
     extra = _ENUM if (ctx.tier == "thorough" or ctx.deep) else ctx.rng.sample(_ENUM, 50)
-    return E.run_property(ctx, "C08", oracle, gen=gen, quick=60, thorough=1200, model=model, extra_scenarios=extra)
+    return E.run_property(ctx, "C08", oracle, gen=gen, quick=60, thorough=2000, model=model, extra_scenarios=extra)
 
 
 def run_impl_only(ctx):
